@@ -65,6 +65,7 @@ type vfC26Case struct {
 	Lazy        bool       `json:"lazy"`  // repair reader started by the first Read instead of immediately
 	Attrs       bool       `json:"attrs"` // the repair interceptor hands out its own (non-nil) attributes
 	Pkts        []vfC26Pkt `json:"pkts"`
+	Bursts      []int      `json:"bursts,omitempty"` // sizes (1..8) of the groups fed back-to-back before any Read; cycled; empty = one at a time
 }
 
 var vfC26PTs = []uint8{96, 102, 98, 45, 39, 127, 108} // video payload types of the default table
@@ -305,7 +306,14 @@ func vfC26Run(v *vfT, c vfC26Case) {
 	}
 
 	delivered, interesting := 0, 0
-	for pi := range c.Pkts {
+	type prepared struct {
+		pi       int
+		p        vfC26Pkt
+		hl       int
+		payload  []byte
+		rtxImage []byte
+	}
+	prepare := func(pi int) prepared {
 		p := c.Pkts[pi] // copy; PayLen is clamped below
 		hl := vfC26HeaderLen(&p)
 		if max := int(receiveMTU) - hl - int(p.Pad); p.PayLen > max {
@@ -339,28 +347,18 @@ func vfC26Run(v *vfT, c vfC26Case) {
 				p.Corrupt = 0
 			}
 		}
-		fed := append([]byte{}, rtxImage...)
+		return prepared{pi, p, hl, payload, rtxImage}
+	}
+	feed := func(pr prepared) {
 		select {
-		case repair.in <- fed:
+		case repair.in <- append([]byte{}, pr.rtxImage...):
 		case <-time.After(vfC26Watchdog):
 			v.Skip("watchdog: repair reader does not accept packets")
 		}
-		waitAsked("after a packet")
-
-		got, attrs := readOne()
-		switch {
-		case p.Corrupt != 0:
-			v.Label(fmt.Sprintf("corrupt:%d(no assertion)", p.Corrupt))
-			continue
-		case p.PayLen < 2:
-			v.Label(fmt.Sprintf("short-payload:%d", p.PayLen))
-			if !isSentinel(got) {
-				v.Violation(fmt.Sprintf("C26/short-not-dropped/payload=%d", p.PayLen),
-					"pkt %d: RTX packet with %d payload byte(s) (csrc %d, ext kind %d, pad %d) was delivered: rtx=%x read=%x",
-					pi, p.PayLen, len(p.CSRC), p.ExtKind, p.Pad, rtxImage, got)
-			}
-			continue
-		}
+		waitAsked("after a packet") // the repair goroutine has processed it and is asking for the next one
+	}
+	checkValid := func(pr prepared, got []byte, attrs interceptor.Attributes) {
+		pi, p, hl, payload, rtxImage := pr.pi, pr.p, pr.hl, pr.payload, pr.rtxImage
 		osn := binary.BigEndian.Uint16(payload[:2])
 		want := vfC26Wire(&p, osn, primSSRC, primPT, payload[2:])
 		feat := ""
@@ -426,6 +424,73 @@ func vfC26Run(v *vfT, c vfC26Case) {
 			v.Violation("C26/attributes/sequence-number", "pkt %d: %s = %v, want %d", pi, AttributeRtxSequenceNumber, attrs.Get(AttributeRtxSequenceNumber), p.Seq)
 		}
 	}
+	// The packets are handed to the receiver in bursts: all packets of a burst are processed by
+	// the repair goroutine (and queued on its 50-slot channel; bursts are at most 8 packets and
+	// the queue is empty before each burst, so nothing is legitimately skipped) before the
+	// application reads any of them.  Then every packet that carries an OSN is read back, in the
+	// order fed, and compared with its own original; one more Read must yield the primary
+	// stream's packet (nothing else was queued: short packets dropped, nothing delivered twice).
+	gi := 0
+	for pi := 0; pi < len(c.Pkts); {
+		size := 1
+		if len(c.Bursts) > 0 {
+			size = c.Bursts[gi%len(c.Bursts)]
+		}
+		gi++
+		if size < 1 {
+			size = 1
+		}
+		if size > 8 {
+			size = 8
+		}
+		var group []prepared
+		var corrupt *prepared
+		for len(group) < size && pi < len(c.Pkts) {
+			pr := prepare(pi)
+			if pr.p.Corrupt != 0 {
+				if len(group) == 0 {
+					corrupt = &pr
+					pi++
+				}
+				break // a corrupt packet is always handled on its own
+			}
+			group = append(group, pr)
+			pi++
+		}
+		if corrupt != nil {
+			feed(*corrupt)
+			_, _ = readOne() // whatever comes back (the mangled packet or the primary one): no assertion
+			v.Label(fmt.Sprintf("corrupt:%d(no assertion)", corrupt.p.Corrupt))
+			continue
+		}
+		if len(group) >= 2 {
+			v.Label(fmt.Sprintf("burst:%d", len(group)))
+		}
+		for _, pr := range group {
+			feed(pr)
+		}
+		firstShort := -1
+		for _, pr := range group {
+			if pr.p.PayLen < 2 {
+				v.Label(fmt.Sprintf("short-payload:%d", pr.p.PayLen))
+				if firstShort < 0 {
+					firstShort = pr.p.PayLen
+				}
+				continue
+			}
+			got, attrs := readOne()
+			checkValid(pr, got, attrs)
+		}
+		if got, _ := readOne(); !isSentinel(got) {
+			last := group[len(group)-1]
+			if firstShort >= 0 {
+				v.Violation(fmt.Sprintf("C26/short-not-dropped/payload=%d", firstShort),
+					"burst of %d ending at pkt %d: an RTX packet with %d payload byte(s) was delivered (one more packet than the burst's OSN-carrying packets was queued): read=%x",
+					len(group), last.pi, firstShort, got)
+			}
+			v.Violation("C26/extra-delivery", "burst of %d ending at pkt %d: after reading every packet of the burst one more RTX packet was delivered: %x", len(group), last.pi, got)
+		}
+	}
 	if interesting > 0 && delivered > 0 {
 		v.NonTrivial()
 	}
@@ -487,9 +552,13 @@ func vfC26Gen(v *vfT) vfC26Case {
 		Lazy:        rapid.Bool().Draw(v.R, "lazy"),
 		Attrs:       rapid.Bool().Draw(v.R, "attrs"),
 	}
-	n := rapid.IntRange(1, 12).Draw(v.R, "npkts")
+	n := rapid.IntRange(1, 16).Draw(v.R, "npkts")
 	for i := 0; i < n; i++ {
 		c.Pkts = append(c.Pkts, vfC26GenPkt(v))
+	}
+	nb := rapid.IntRange(1, 4).Draw(v.R, "nbursts")
+	for i := 0; i < nb; i++ {
+		c.Bursts = append(c.Bursts, rapid.SampledFrom([]int{1, 2, 2, 3, 4, 5, 8}).Draw(v.R, "burst"))
 	}
 	return c
 }
